@@ -1218,17 +1218,13 @@ func r161unknown(c *an.Ctx) {
 	n, ok := 0, true
 	var where ssa.Instruction
 	scope := append([]*ssa.Function{fn}, an.AnonFuncsDeep(fn)...)
+	// a parsing helper the rules have not seen counts once per call (`mx := group(x); my := group(y)`)
 	for _, vc := range an.CallsToDeepMatch(fn, func(s string) bool { return strings.HasSuffix(s, "protowire.ConsumeField") }) {
 		if vc.Via != nil {
 			scope = append(scope, vc.Via)
 		}
 	}
-	seen := map[*ssa.Function]bool{}
 	for _, f := range scope {
-		if seen[f] {
-			continue
-		}
-		seen[f] = true
 		an.Instrs(f, func(in ssa.Instruction) {
 			mu, isMU := in.(*ssa.MapUpdate)
 			if !isMU || !strings.Contains(mu.Map.Type().String(), "RawFields") {
